@@ -159,6 +159,8 @@ fn partial_insertion_sort<T, F>(v: &mut [T], is_less: &F) -> bool
 where
     F: Fn(&T, &T) -> bool,
 {
+    #[cfg(nucleo_verif)]
+    crate::verif::routine_entered(0);
     // Maximum number of adjacent out-of-order pairs that will get shifted.
     const MAX_STEPS: usize = 5;
     // If the slice is shorter than this, don't shift any elements.
@@ -205,6 +207,8 @@ fn insertion_sort<T, F>(v: &mut [T], is_less: &F)
 where
     F: Fn(&T, &T) -> bool,
 {
+    #[cfg(nucleo_verif)]
+    crate::verif::routine_entered(1);
     for i in 1..v.len() {
         shift_tail(&mut v[..i + 1], is_less);
     }
@@ -216,6 +220,8 @@ fn heapsort<T, F>(v: &mut [T], is_less: &F)
 where
     F: Fn(&T, &T) -> bool,
 {
+    #[cfg(nucleo_verif)]
+    crate::verif::routine_entered(2);
     // This binary heap respects the invariant `parent >= child`.
     let sift_down = |v: &mut [T], mut node| {
         loop {
@@ -266,6 +272,8 @@ fn partition_in_blocks<T, F>(v: &mut [T], pivot: &T, is_less: &F) -> usize
 where
     F: Fn(&T, &T) -> bool,
 {
+    #[cfg(nucleo_verif)]
+    crate::verif::routine_entered(3);
     // Number of elements in a typical block.
     const BLOCK: usize = 128;
 
@@ -588,6 +596,8 @@ fn partition_equal<T, F>(v: &mut [T], pivot: usize, is_less: &F) -> usize
 where
     F: Fn(&T, &T) -> bool,
 {
+    #[cfg(nucleo_verif)]
+    crate::verif::routine_entered(4);
     // Place the pivot at the beginning of slice.
     v.swap(0, pivot);
     let (pivot, v) = v.split_at_mut(1);
@@ -646,6 +656,8 @@ where
 /// partitions in quicksort.
 #[cold]
 fn break_patterns<T>(v: &mut [T]) {
+    #[cfg(nucleo_verif)]
+    crate::verif::routine_entered(5);
     let len = v.len();
     if len >= 8 {
         // Pseudorandom number generator from the "Xorshift RNGs" paper by George Marsaglia.
@@ -860,8 +872,12 @@ where
                 v = left;
             }
         } else if canceled.load(atomic::Ordering::Relaxed) {
+            #[cfg(nucleo_verif)]
+            crate::verif::routine_entered(7);
             break true;
         } else {
+            #[cfg(nucleo_verif)]
+            crate::verif::routine_entered(6);
             // Sort the left and right half in parallel.
             let (canceled1, canceled2) = rayon::join(
                 || recurse(left, is_less, pred, limit, canceled),
